@@ -4,11 +4,12 @@ from ..core.model import Program
 from ..core.report import CheckContext
 from ..core.resolve import Resolver
 from ..rules import bookkeeping as bk
-from .common import run_control
+from .common import run_control, generic_rules
 
 
 def analyse(ctx: CheckContext, p: Program):
     r = Resolver(p)
+    generic_rules(ctx, p, r, "C02")
     fs = [f for f in p.all_funcs if f.module.name in ("OpenPinch.analysis.utility_targeting",)]
     bk.check_wrap(ctx, p, r, fs)
     bk.check_gen_use_matching(ctx, p, r)
